@@ -931,6 +931,10 @@ class C04(Prop):
         for conf in ("eh-args", "noeh-both", "eh-locals"):
             B.append(machine_case("b-%s-budget1" % conf, Q(F(2, E_), E_), -2, 30, 300, 0, {"origin": "boundary"}, self.idx_or_default(),
                                   "setlimit", conf=conf, argkind="obj"))
+        # repaired: the trace of a stack overflow raised while a frame is being set up does not read that frame's variables
+        for conf in ("noeh-locals", "eh-locals", "noeh-both", "eh-args"):
+            B.append(self.mk("b-%s-rec-locals-stack" % conf, Q(R(20, 3), W(5)), depth=150, stack=300, conf=conf, argkind="str"))
+            B.append(self.mk("b-%s-rec-cbargs-stack" % conf, R(12, 4), depth=150, stack=200, conf=conf, argkind="arr"))
         # callbacks whose work adds up to more than the budget: the expiry comes inside one of them
         B.append(self.mk("b-cb-overbudget-map", Q(Bk(40, W(60)), W(5)), cost=2000))
         B.append(self.mk("b-cb-overbudget-filter", C(Bk(60, W(25, 1), 1)), cost=2000))
